@@ -148,6 +148,8 @@ CASES = [
     ("garbage-span", ["garbage", "len=2", "rand=50", "mut=50"], "TV_Parse", "TV_Parse.cfg", "l", m_garbage, 0),
     ("machine-pc", ["machine", "kind=prog"], "TV_Machine", "TV_Machine.cfg", "l", m_machine_pc, 0),
     ("machine-drop", ["machine", "kind=prog"], "TV_Machine", "TV_Machine.cfg", "l", m_machine_drop, 0),
+    ("machine-int-pc", ["machine", "kind=int", "timers=1"], "TV_Machine", "TV_Machine.cfg", "l", m_machine_pc, 0),
+    ("machine-dev-pc", ["machine", "kind=devices"], "TV_Machine", "TV_Machine.cfg", "l", m_machine_pc, 0),
     ("timer-fired", ["timer"], "TV_Timer", "TV_Timer.cfg", "l", m_timer, 0),
 ]
 
